@@ -90,12 +90,12 @@ def run(tier):
         decided = {m: v for m, v in by_model.items() if m not in und}
         if r_.get("cut_off_bus_rows_keep_device_entries"):
             traces.append(dict(meta=dict(tid=len(traces) + 1, sid="fd[cut_off_bus_rows|%s|%s]" % (t["case"], t["phase"])),
-                               ev=[dict(e="jac", fd_ok=False, pattern_stable=True)],
+                               ev=[dict(e="jac", fd_ok=False, pattern_stable=True, modes_agree=True)],
                                detail=dict(case=t["sid"], entries=r_["cut_off_bus_rows_keep_device_entries"])))
-        traces.append(dict(meta=dict(tid=len(traces) + 1, sid=t["sid"]), ev=[dict(e="jac", fd_ok=True, pattern_stable=r_["pattern_stable"])],
+        traces.append(dict(meta=dict(tid=len(traces) + 1, sid=t["sid"]), ev=[dict(e="jac", fd_ok=True, pattern_stable=r_["pattern_stable"], modes_agree=r_.get("modes_agree", True))],
                            detail=dict(r_, pairs=None)))
         for m, prs in sorted(decided.items()):
-            traces.append(dict(meta=dict(tid=len(traces) + 1, sid="fd[%s]" % m), ev=[dict(e="jac", fd_ok=False, pattern_stable=True)],
+            traces.append(dict(meta=dict(tid=len(traces) + 1, sid="fd[%s]" % m), ev=[dict(e="jac", fd_ok=False, pattern_stable=True, modes_agree=True)],
                                detail=dict(case=t["sid"], pairs=prs[:6])))
     verdicts, tl = tracecheck.validate([dict(meta=t["meta"], ev=t["ev"]) for t in traces], "Trace_PF")
     for t in tl:
